@@ -126,6 +126,7 @@ def main(argv=None):
     ap.add_argument("--list", action="store_true")
     a = ap.parse_args(argv)
     seed = int(os.environ.get("VERIF_SEED", "0"))
+    os.environ["VERIF_TIER"] = a.tier
     prop = a.prop
 
     if a.replay:
